@@ -1222,9 +1222,7 @@ def gen_legacy_v1(rng):
     md = st.metadata
     md.version = rng.choice([1, 2, 3, 4])
     lang = rng.choice(LANGS[:40])
-    md.language = legacy_claim_pb2.DESCRIPTOR.message_types_by_name['Claim'].fields_by_name['stream'].message_type \
-        .fields_by_name['metadata'].message_type.fields_by_name['language'].enum_type.values_by_name[lang].number \
-        if lang in V1_LANGS else 1
+    md.language = V1_LANGS.get(lang, 1)
     e_lang = lang if lang in V1_LANGS else 'en'
     md.title = gen_text(rng, 40)
     md.description = gen_text(rng, 120)
@@ -1266,7 +1264,7 @@ def gen_legacy_v1(rng):
 
 
 _md = legacy_claim_pb2.Claim.DESCRIPTOR.fields_by_name['stream'].message_type.fields_by_name['metadata'].message_type
-V1_LANGS = {v.name for v in _md.fields_by_name['language'].enum_type.values if v.number != 0}
+V1_LANGS = {v.name: v.number for v in _md.fields_by_name['language'].enum_type.values if v.number != 0}
 
 
 def check_legacy(run, model, data, expect, kind):
@@ -1305,3 +1303,164 @@ def check_legacy(run, model, data, expect, kind):
         return
     impl = {'env': env_view(back, back.to_message_bytes()), 'tree': {'ok': msg_tree(back.message)}}
     run.compare('C16.decode_all', case, impl, model.call('decode_all', d=raw.hex(), schema=SCHEMA.table, depth=DEPTH, m=M_CLAIM))
+
+
+# ------------------------------------------------------------------------------------------------
+# malformed stream: envelope / dispatch on damaged bytes, wire parser on damaged payloads
+# ------------------------------------------------------------------------------------------------
+def strings_valid(tree, m):
+    """every string-typed field of a model tree holds valid UTF-8 (the real parser insists on that)"""
+    for f in tree:
+        k, t, v = f
+        if t == 'm':
+            sub = SCHEMA.msg_of(m, k)
+            if sub is not None and not strings_valid(v, sub):
+                return False
+        elif t == 'b' and (m, k) in SCHEMA.strings:
+            try:
+                bytes.fromhex(v).decode('utf-8')
+            except UnicodeDecodeError:
+                return False
+    return True
+
+
+def check_signable_bytes(run, model, data, kind):
+    """Support.from_bytes is Signable.from_bytes unchanged: outcome class on arbitrary bytes"""
+    case = {'op': 'support-bytes', 'data': data.hex(), 'kind': kind}
+    run.case(case, nontrivial=len(data) > 0)
+    try:
+        sup = Support.from_bytes(data)
+        impl = {'kind': 'signed' if sup.is_signed else 'unsigned'}
+        if sup.is_signed:
+            impl.update(hash=sup.signing_channel_hash.hex(), sig=sup.signature.hex())
+        parsed = True
+    except IndexError:
+        impl, parsed = 'empty', None
+    except DecodeError as ex:
+        parsed = False
+        impl = 'version' if 'format version' in str(ex) else 'payload'
+    run.count('support-bytes:' + (impl if isinstance(impl, str) else impl['kind']))
+    mod = model.call('decode_all', d=data.hex(), schema=SCHEMA.table, depth=DEPTH, m=M_SUPPORT)
+    # monitor: version bytes other than 0 and 1 are refused, 0/1 are not refused for their version
+    if data and data[0] > 1 and impl != 'version':
+        run.violation(case, f'version byte {data[0]} was not refused', signature={'op': 'support-bytes', 'data': data.hex()})
+        return
+    if data and data[0] <= 1 and impl == 'version':
+        run.violation(case, f'version byte {data[0]} refused', signature={'op': 'support-bytes', 'data': data.hex()})
+        return
+    if isinstance(mod, str):
+        run.compare('C16.env_decode', case, impl, mod)
+        return
+    env = {k: v for k, v in mod['env'].items() if k != 'payload'}
+    verdict = mod['tree']
+    if verdict == 'group':
+        run.count('support-bytes:group-skipped')
+        return
+    model_ok = isinstance(verdict, dict) and strings_valid(verdict['ok'], M_SUPPORT)
+    run.compare('C16.env_decode', case, impl if parsed else 'payload', env if model_ok else 'payload')
+
+
+def check_claim_dispatch(run, model, data, kind):
+    """Claim.from_bytes on damaged bytes: which decoder is chosen"""
+    case = {'op': 'claim-bytes', 'data': data.hex(), 'kind': kind}
+    run.case(case, nontrivial=len(data) > 0)
+    fmt = model.call('claim_format', d=data.hex())
+    run.count('claim-bytes:' + fmt)
+    try:
+        c = Claim.from_bytes(data)
+        impl = {0: 'json', 1: 'v1', 2: 'v2'}[c.version]
+    except IndexError:
+        impl = 'empty'
+    except Exception:                       # noqa  (a legacy decoder refusing damaged data is not a dispatch matter)
+        impl = None
+    if impl is None:
+        if fmt == 'v2':
+            mod = model.call('decode_all', d=data.hex(), schema=SCHEMA.table, depth=DEPTH, m=M_CLAIM)
+            v = mod['tree'] if isinstance(mod, dict) else mod
+            if isinstance(v, dict) and strings_valid(v['ok'], M_CLAIM):
+                run.disagreement('C16.claim_dispatch', case, 'refused', 'model parses the payload')
+            else:
+                run.compare('C16.claim_dispatch', case, 'refused', 'refused')
+        return
+    run.compare('C16.claim_dispatch', case, impl, fmt)
+
+
+def check_wire(run, model, payload, m, cls, kind):
+    """the wire model against the real protobuf parser on (possibly damaged) message bytes"""
+    case = {'op': 'wire', 'data': payload.hex(), 'm': m, 'kind': kind}
+    run.case(case, nontrivial=len(payload) > 0)
+    msg = cls()
+    try:
+        msg.ParseFromString(payload)
+        impl_ok = True
+    except DecodeError:
+        impl_ok = False
+    mod = model.call('parse_tree', d=payload.hex(), schema=SCHEMA.table, depth=DEPTH, m=m)
+    if mod == 'group':
+        run.count('wire:group-skipped')
+        return
+    model_ok = isinstance(mod, dict) and strings_valid(mod['ok'], m)
+    run.count('wire:' + ('ok' if impl_ok else 'refused'))
+    if not run.compare('C16.wire_verdict', case, impl_ok, model_ok):
+        return
+    if impl_ok and msg.SerializeToString() == payload:
+        run.count('wire:canonical')
+        run.compare('C16.wire_tree', case, {'ok': msg_tree(msg)}, mod)
+        run.compare('C16.wire_ser', case, payload.hex(), model.call('ser_tree', tree=mod['ok']))
+    flat = model.call('wire_parse', d=payload.hex())
+    if isinstance(flat, dict):
+        run.compare('C16.wire_flat_ser', case, None, None if model.call('ser_fields', fields=flat['ok']) is not None else 1)
+
+
+def damage(rng, b):
+    if not b:
+        return bytes([rng.randrange(256)])
+    c = rng.random()
+    ba = bytearray(b)
+    if c < 0.35:
+        i = rng.randrange(len(ba))
+        ba[i] = rng.choice([0, 1, 2, 7, 0x7f, 0x80, 0xff, ba[i] ^ (1 << rng.randrange(8)), rng.randrange(256)])
+    elif c < 0.55:
+        del ba[rng.randrange(len(ba)):]
+    elif c < 0.7:
+        i = rng.randrange(len(ba) + 1)
+        ba[i:i] = bytes(rng.randrange(256) for _ in range(rng.randrange(1, 4)))
+    elif c < 0.8:
+        del ba[rng.randrange(len(ba))]
+    elif c < 0.9:
+        ba += rng.choice([b'\x00', b'\x08', b'\x0a\x05ab', b'\x0d\x01\x02\x03\x04', b'\x09' + b'\x01' * 8, b'\xff' * 11,
+                          b'\x80' * 9 + b'\x01', b'\x80' * 10, b'\x0b\x0c', b'\x0f', b'\x0e'])
+    else:
+        ba = bytearray(rng.randrange(256) for _ in range(rng.randrange(0, 12)))
+    return bytes(ba)
+
+
+def check_varint(run, model, n, kind):
+    case = {'op': 'varint', 'n': n, 'kind': kind}
+    run.case(case, nontrivial=n > 0)
+    run.count('varint:bytes=%d' % max(1, (n.bit_length() + 6) // 7))
+    # the real encoder: serialise a message holding n in a uint64 field (Source.size = field 3)
+    src = claim_pb2.Source()
+    src.size = n
+    raw = src.SerializeToString()
+    impl = raw[1:].hex() if n else model.call('varint_encode', n=0)      # zero is not written at all in proto3
+    run.compare('C16.varint_encode', case, impl, model.call('varint_encode', n=n))
+    if n:
+        back = claim_pb2.Source()
+        back.ParseFromString(raw)
+        if back.size != n:
+            run.violation(case, f'uint64 {n} read back as {back.size}', signature={'op': 'varint', 'n': n})
+        run.compare('C16.varint_decode', case, [n, ''], model.call('varint_decode', d=raw[1:].hex()))
+    # typed views
+    z = n - 2 ** 63
+    t = claim_pb2.Stream()
+    t.release_time = z
+    if z:
+        run.compare('C16.int64', case, msg_tree(t)[0][2], model.call('int64_enc', z=z))
+        run.compare('C16.int64_dec', case, z, model.call('int64_dec', n=model.call('int64_enc', z=z)))
+    z32 = (n % 2 ** 32) - 2 ** 31
+    loc = claim_pb2.Location()
+    loc.latitude = z32
+    if z32:
+        run.compare('C16.zigzag', case, msg_tree(loc)[0][2], model.call('zigzag_enc', z=z32))
+        run.compare('C16.zigzag_dec', case, z32, model.call('zigzag_dec', n=model.call('zigzag_enc', z=z32)))
